@@ -36,6 +36,11 @@ fn main() {
     match op {
         "compile" => println!("RESULT ok"),
         "is_match" => println!("RESULT {}", re.is_match(&s)),
+        "is_match_many" => {
+            // a[5] holds several hex strings separated by ';'
+            let bits: String = a[5].split(';').map(|h| if re.is_match(&unhex(h)) { '1' } else { '0' }).collect();
+            println!("RESULT {}", bits)
+        }
         "replace_all" => match re.replace_all(&s, &r) { Ok(o) => println!("RESULT ok:{}", hex(&o)), Err(e) => println!("RESULT err:{}", kind(&e)) },
         "analyze" => match re.analyze(&s) { Ok(it) => println!("RESULT ok:{}", it.count()), Err(e) => println!("RESULT err:{}", kind(&e)) },
         _ => println!("RESULT ?"),
@@ -81,8 +86,12 @@ class Native:
         self.bin = os.path.join(self.env["CARGO_TARGET_DIR"], "debug", "apireplay")
 
     def run(self, op, dialect, pattern, flags="", inp="", repl=""):
+        if isinstance(inp, (list, tuple)):
+            inp_arg = ";".join(_hex(x) for x in inp)
+        else:
+            inp_arg = _hex(inp)
         try:
-            r = subprocess.run([self.bin, op, dialect, _hex(pattern), _hex(flags), _hex(inp), _hex(repl)],
+            r = subprocess.run([self.bin, op, dialect, _hex(pattern), _hex(flags), inp_arg, _hex(repl)],
                                text=True, stdout=subprocess.PIPE, stderr=subprocess.STDOUT, timeout=20)
         except subprocess.TimeoutExpired:
             return "HANG"
@@ -216,7 +225,12 @@ def confirm(res, repo_dir, scratch, env):
                                   c.get("input", ""), c.get("replacement", ""))
         bad = got.startswith("PANIC") or got == "HANG" or (c.get("expect") is not None and got != c["expect"]) \
             or (c.get("expect_not") is not None and got.startswith(c["expect_not"]))
-        rec = {k: c[k] for k in ("op", "pattern", "flags", "input", "replacement", "expect") if k in c}
+        rec = {k: c[k] for k in ("op", "pattern", "flags", "input", "replacement", "expect", "mirror") if k in c}
+        if isinstance(rec.get("input"), list):
+            n = len(rec["input"])
+            diff = [rec["input"][i] for i in range(min(n, len(got), len(rec.get("expect") or "")))
+                    if got[i] != rec["expect"][i]] if isinstance(rec.get("expect"), str) else []
+            rec["input"] = "%d inputs over the pattern's characters; differing on: %r" % (n, diff[:5])
         rec["got"] = got
         rec["violates_statement"] = bool(bad)
         out.append(rec)
@@ -247,7 +261,13 @@ def build_cases(name, vals):
         n = int(name.rsplit("n", 1)[1])
         p, _ = _sym_arr(vals, 0, n)
         s = ref_strip(p)
-        return [{"op": "is_match", "pattern": p, "flags": "x", "input": t, "mirror": s} for t in (s, p, "a", "")]
+        # every input of <= 3 chars over the characters of the pattern (metacharacters excluded) plus 'a'
+        import itertools
+        alpha = sorted({c for c in p if c not in "\\[]"} | {"a", "]", "["})[:7]
+        inputs = [""]
+        for k in (1, 2, 3):
+            inputs += ["".join(t) for t in itertools.product(alpha, repeat=k)]
+        return [{"op": "is_match_many", "pattern": p, "flags": "x", "input": inputs, "mirror": s}]
     if name.startswith("f_bracket_"):
         n = int(name.rsplit("n", 1)[1])
         t, _ = _sym_arr(vals, 0, n)
